@@ -66,5 +66,8 @@ def short(x):
             return x.item()
     except Exception:
         pass
-    r = repr(x)
+    try:
+        r = repr(x)
+    except Exception as ex:         # noqa: an object whose storage cannot be read
+        r = f"<unprintable {type(x).__name__}: {type(ex).__name__}>"
     return r if len(r) < 80 else r[:77] + "..."
